@@ -132,6 +132,8 @@ impl Property for P {
             Workload::new("small-grid", 295, true, "every n in 6..=300, every L in 1..=320"),
             Workload::new("chunk-edges", 3 * 33, true, "n in k*10248-16..=k*10248+16 (k=1..3), L over 40 lengths up to 3 chunks"),
             Workload::new("random-pairs", tier.pick(3_000, 600_000), false, "random n in 6..=11000, 24 ascending L each"),
+            Workload::new("large-buffers", tier.pick(1_500, 60_000), false, "random n in 11 000..=400 000 (biased to powers of 16 and multiples of the chunk size +-16), L around n-8 and beyond"),
+            Workload::new("large-loops", 24, true, "whole-body loops of 300 000 bytes through fixed buffers of 4 KiB..256 KiB incl. 65 536 + overhead"),
             Workload::new("loops", (LOOP_NS.len() * 2 * 3) as u64, true, "whole-body loops, fixed buffer, bodies of 1000/25000/70000 bytes"),
             Workload::new("sized-loops-small", 64, true, "length-delimited loops with buffers 1..=64"),
         ]
@@ -164,6 +166,28 @@ impl Property for P {
                 ls.sort();
                 ls.dedup();
                 sweep_n(n, &ls, rec)
+            }
+            "large-buffers" => {
+                let mut rng = Rng::derive(seed, "C19-large", idx);
+                let n = match rng.below(4) {
+                    0 => (*rng.pick(&[0x10000usize, 0x20000, 0x40000, 0x8000, 0x4000]) + rng.usize_in(0, 40)).saturating_sub(16),
+                    1 => (rng.usize_in(1, 38) * 10248 + rng.usize_in(0, 32)).saturating_sub(16),
+                    _ => rng.usize_in(11_000, 400_000),
+                };
+                let mut ls: Vec<usize> = vec![1, 1000, n / 2];
+                for d in 0..24 {
+                    ls.push(n.saturating_sub(16) + d);
+                }
+                ls.push(n + 5000);
+                ls.push(2 * n);
+                ls.sort();
+                ls.dedup();
+                sweep_n(n, &ls, rec)
+            }
+            "large-loops" => {
+                let ns = [4096usize, 16_384, 32_768, 65_535, 65_536, 65_541, 65_543, 65_544, 65_545, 65_552, 131_072, 262_144];
+                let n = ns[idx as usize % ns.len()];
+                whole_body_loop(n, 300_000, idx as usize / ns.len() == 0, rec)
             }
             "loops" => {
                 let i = idx as usize;
